@@ -43,6 +43,9 @@ type CredCase struct {
 	Ed      bool     `json:"ed,omitempty"`       // an Ed25519Signature2018 proof as well
 	EdFirst bool     `json:"ed_first,omitempty"` // ... added before the BBS+ proofs
 	Form    string   `json:"form,omitempty"`     // ids (every node has an id) | see buildCred
+	// Images: further values of the subject's image member (an IRI-valued, multi-valued member): IRIs of several
+	// schemes (they sort before or after the urn:bnid: IRIs of blank nodes) and inline nodes without id
+	Images []string `json:"images,omitempty"`
 }
 
 var subjectPool = []string{"givenName", "familyName", "gender", "image", "residentSince", "lprCategory", "lprNumber",
@@ -59,6 +62,25 @@ func fieldValue(f string, v int) string {
 		return fmt.Sprintf("data:image/png;base64,iVBOR%dw0KGgokJggg==", v)
 	default:
 		return fmt.Sprintf("%s-value-%d", f, v)
+	}
+}
+
+var imagePool = []string{"did", "https", "urn-a", "uuid", "urn-z", "node", "node"}
+
+func imageValue(kind string, v int) interface{} {
+	switch kind {
+	case "did":
+		return fmt.Sprintf("did:example:image%d", v)
+	case "https":
+		return fmt.Sprintf("https://images.example/%d.png", v)
+	case "urn-a":
+		return fmt.Sprintf("urn:aaa:image:%d", v)
+	case "uuid":
+		return fmt.Sprintf("urn:uuid:8f2a6b1c-0d4e-4c5a-9b7e-%012d", v)
+	case "urn-z":
+		return fmt.Sprintf("urn:zzz:image:%d", v)
+	default: // an inline node without id
+		return map[string]interface{}{"description": fmt.Sprintf("photograph %d", v), "identifier": fmt.Sprintf("IMG-%d", v)}
 	}
 }
 
@@ -292,6 +314,15 @@ func buildCred(c *CredCase) map[string]interface{} {
 	subj := map[string]interface{}{"id": "did:example:b34ca6cd37bbf23", "type": []interface{}{"PermanentResident", "Person"}}
 	for i, f := range c.Present {
 		subj[f] = fieldValue(f, c.Val+i)
+
+		if f == "image" && len(c.Images) > 0 {
+			vals := []interface{}{subj[f]}
+			for j, k := range c.Images {
+				vals = append(vals, imageValue(k, c.Val+j))
+			}
+
+			subj[f] = vals
+		}
 	}
 
 	credID := fmt.Sprintf("https://issuer.oidp.uscis.gov/credentials/%d", 83627465+c.Val)
@@ -686,6 +717,13 @@ func runCredOnce(kind string, c *CredCase, tr sink) {
 		vs := []string{v0, v1, v2}
 		expect := []string{vAccept, vReject, vReject}
 
+		if an := aliasNonce(nonce); an != nil { // same length, value shifted by the group order
+			va, _ := verifyWith(singleBytes, an, fetcher)
+			atts = append(atts, Attack{Kind: "nonce", Label: "plus-order", Pos: 12})
+			vs = append(vs, va)
+			expect = append(expect, vReject)
+		}
+
 		var all []int
 
 		for i := 0; i < np; i++ {
@@ -876,8 +914,38 @@ func pick(r *hx.Rng, pool []string, p int) []string {
 	return out
 }
 
+// mixedMember makes the credential one whose subject has a revealed multi-valued member mixing inline nodes without id
+// with IRIs of several schemes, under a subject with or without id.
+func mixedMember(r *hx.Rng, c *CredCase) {
+	if !in("image", c.Present) {
+		c.Present = append(c.Present, "image")
+	}
+
+	if !in("image", c.Reveal) {
+		c.Reveal = append(c.Reveal, "image")
+	}
+
+	iris := pick(r, imagePool[:5], 50)
+	if len(iris) == 0 {
+		iris = []string{imagePool[r.Intn(5)]}
+	}
+
+	vals := append([]string{"node"}, iris...)
+	if r.Intn(3) == 0 {
+		vals = append(vals, "node")
+	}
+
+	for i := len(vals) - 1; i > 0; i-- {
+		j := r.Intn(i + 1)
+		vals[i], vals[j] = vals[j], vals[i]
+	}
+
+	c.Images = vals
+	c.Form = []string{"ids", "blank-subject", "blank-subject", "blank-subject-uuid"}[r.Intn(4)]
+}
+
 func randomCred(r *hx.Rng) *CredCase {
-	c := &CredCase{Level: "cred", Nonce: r.Intn(4), Key: r.Intn(3), Val: r.Intn(500)}
+	c := &CredCase{Level: "cred", Nonce: r.Intn(9), Key: r.Intn(3), Val: r.Intn(500)}
 	c.Present = pick(r, subjectPool, 70)
 	c.Reveal = pick(r, c.Present, []int{0, 30, 50, 100}[r.Intn(4)])
 	c.Top = pick(r, topPool, 60)
@@ -885,6 +953,13 @@ func randomCred(r *hx.Rng) *CredCase {
 	c.BBS = []int{1, 1, 2, 2, 3}[r.Intn(5)]
 	c.Ed = r.Intn(3) == 0
 	c.EdFirst = r.Bool()
+	if in("image", c.Present) && r.Intn(2) == 0 {
+		c.Images = pick(r, imagePool, 45)
+		if r.Intn(3) > 0 && !in("image", c.Reveal) {
+			c.Reveal = append(c.Reveal, "image")
+		}
+	}
+
 	c.Form = []string{"ids", "ids", "ids", "ids", "blank-subject", "blank-subject-uuid", "blank-subject-uuid", "no-ids",
 		"blank-nested", "blank-nested-hidden"}[r.Intn(10)]
 
